@@ -72,11 +72,13 @@ class TypeScriptSRPAnalyzer(TypeScriptBaseAnalyzer):
         loc = self.metrics_calculator.count_loc(class_node, source)
         has_keyword = any(keyword in class_name for keyword in config.keywords)
 
+        # Report at the class header: a decorator written above the class belongs to the node but is not its header
+        header = next((c for c in class_node.children if c.type in ("abstract", "class")), class_node)
         return {
             "class_name": class_name,
             "method_count": method_count,
             "loc": loc,
             "has_keyword": has_keyword,
-            "line": class_node.start_point[0] + 1,
-            "column": class_node.start_point[1],
+            "line": header.start_point[0] + 1,
+            "column": header.start_point[1],
         }
